@@ -399,6 +399,18 @@ def _run(ctx):
             for h in hows:
                 R.graph("simple-%d-exhaustive" % n, names, links, h)
 
+    # 2b. a seeded sample of the next size up
+    n_s, k_s = (6, 3000) if quick else (7, 30000)
+    ctx.bound("%d random labelled simple graphs on %d nodes (each link present with probability 0.2..0.7), random orientations" % (k_s, n_s))
+    names = _names(n_s)
+    allp = list(itertools.combinations(range(n_s), 2))
+    for i in range(k_s):
+        pr = rng.choice([0.2, 0.3, 0.4, 0.5, 0.7])
+        links = gl.orient_random(rng, [x for x in allp if rng.random() < pr], names)
+        R.graph("simple-%d-sample" % n_s, names, links, hows[i % 2])
+        if ctx.out_of_time(40 if quick else 400):
+            break
+
     # 3. multigraphs with parallel and self links
     mg = [(1, 5), (2, 5), (3, 4 if quick else 5), (4, 3 if quick else 5)]
     reps = 1 if quick else 3
